@@ -297,7 +297,7 @@ def check_c16(tier):
     V = Verdict('C16', tier)
     d = 1 if tier == 'quick' else 2
     OL = O_T | og('LOG')
-    specs = [S('T1', 2, M_T | mf('COMPOSITE'), og('CORE', 'LOG')), S('GP1', 1, M_P0 | mf('COMPOSITE'), O_P), S('T1', 2 if tier == 'quick' else 3, M_T, OL | og('REPLAY')), S('G1', d, M_T, OL), S('G2', d, M_T, OL), S('GP1', d, M_P0 | mf('GUARD_REQ'), O_P | og('REACT')), S('GP2', 1, M_P0, O_P), S('T2', 1, M_TP, O_TALL),
+    specs = [S('G1', 1, M_T, og('CORE', 'LOG', 'WITHDRAW')), S('T1', 2, M_T | mf('COMPOSITE'), og('CORE', 'LOG')), S('GP1', 1, M_P0 | mf('COMPOSITE'), O_P), S('T1', 2 if tier == 'quick' else 3, M_T, OL | og('REPLAY')), S('G1', d, M_T, OL), S('G2', d, M_T, OL), S('GP1', d, M_P0 | mf('GUARD_REQ'), O_P | og('REACT')), S('GP2', 1, M_P0, O_P), S('T2', 1, M_TP, O_TALL),
              S('GI1', 2, M_T | mf('INJ_DECIDE'), OL), S('GI2', d, M_T | mf('INJ_DECIDE'), OL), S('GI1', 1, M_T | mf('INJ_DECIDE', 'COMPOSITE'), og('CORE', 'LOG')), S('GQ1', 1, M_P0 | mf('PAYLOAD'), O_P | og('PAYLOAD')), S('GQ2', 0, M_P0 | mf('PAYLOAD'), O_P | og('PAYLOAD')), S('G1t', 1, M_T, OL), S('GP1t', 1, M_P0, O_P), S('P5f', 1, M_P0, O_P), S('P5s', 1, M_P0, O_P), S('P5n', 1, M_P0, O_P), S('T1r', 1, M_T, OL), S('T1', 2, mf('PHASE_REQ', 'GUARD_CANCEL', 'LOG_TOGGLE'), og('CORE', 'LOG')), S('T1', 1, M_T, OL, flags=['--copy', '--copy-move']), S('G2', 1, mf('PHASE_REQ', 'LOG_TOGGLE'), og('CORE', 'LOG'))]
     vc.run_specs(V, specs, tier, budget=100 if tier == 'quick' else 600)
     # differential: compiled out / compiled in (attached, detached, attached later) / verbose must be behaviourally identical
